@@ -272,7 +272,7 @@ func (w *refWalker) file(p string, n *Node, gis []giPattern) {
 				// the size of a required dangling link cannot be taken: outcome not fixed by the statement
 				w.out.Soft[RefKey(e.Name, w.label, p)] = true
 				w.out.SoftExt[e.Name] = true
-				return
+				continue
 			}
 			if sz > int64(w.cfg.MaxFileSize) {
 				return
